@@ -92,6 +92,9 @@ def graph_init(self: 'Graph', triples: 'optlist', top: 'val', epidata: 'optodict
     requires(dict_wf(epidata) and dict_wf(metadata))        # (true of every dict, see dict_wf)
     ensures(self.triples == norm_triples(triples if triples is not None else []), label='triples')
     ensures(self._top == top, label='top')
+    # triples whose roles already have their colon are taken as they are
+    ensures(implies(triples is not None and forall_idx(triples, lambda k, t: t[1].startswith(':')),
+                    self.triples == triples), label='triples-kept')
     # the marker table and the metadata are copied (a missing one is empty)
     ensures(implies(epidata is not None, dict_keys(self.epidata) == dict_keys(epidata)
                     and forall_idx(dict_keys(epidata), lambda i, k: dict_get(self.epidata, k) == dict_get(epidata, k))),
@@ -103,6 +106,7 @@ def graph_init(self: 'Graph', triples: 'optlist', top: 'val', epidata: 'optodict
             label='metadata')
     ensures(implies(metadata is None, len(dict_keys(self.metadata)) == 0), label='metadata-default')
     induct('triples', lambda: triples)
+    induct('triples-kept', lambda: triples)
 
 
 @contract('penman.graph:Graph.top')
